@@ -517,3 +517,14 @@ def _register_shared_args():
 
 
 # _register_shared_args() is called by the driver after this module is fully imported (no import cycles)
+
+
+# "columns of unequal length ... all raise": for HDF5 input the lengths of the selected columns are compared when the file is opened,
+# in every process (C18 unit on the reader constructors, case with one longer column)
+def _register_shared_round9():
+    from . import C18 as _C18
+    unit(P, "Reader.__init__", fuc=["yaw.catalog.readers:HDFReader.__init__", "yaw.utils.misc:common_len_assert"],
+         cases=[dict(cls="HDFReader", given=True, degrees=False, opt=True, unequal=True), dict(cls="HDFReader", given=True, degrees=False, opt=True)])(_C18.u_reader_init)
+
+
+# _register_shared_round9() is called by the driver after this module is fully imported (no import cycles)
